@@ -822,7 +822,7 @@ func c13Sweep(g *hx.WireGen, grams []*hx.CmdGrammar, one func(i int, args []stri
 		}
 		for _, f := range fams {
 			for _, which := range variants {
-				for _, target := range []string{sweepKey[f], "kn"} {
+				for _, target := range []string{sweepKey[f], sweepKey[f], sweepKey[f], "kn"} {
 					for _, setup := range sweepSetup[f] {
 						if !run(setup) {
 							return
